@@ -157,6 +157,15 @@ def run(chk):
         f, sel, d = derived[i]
         got = impl[off + i]
         key = (evalgen.render(("pipe", f, ("del", sel))), json.dumps(d))
+        if want.startswith(b"OK") and got.startswith(b"ERR") and isinstance(mm.get(off + i), bytes) and mm[off + i].startswith(b"OK") \
+                and (off + i) not in evalcheck.LAST_UNSUP:
+            # the delete fails on the container as the expression left it, while the same delete on the same value decoded
+            # afresh succeeds (and the reference semantics defines a result): nothing was removed
+            nviol += 1
+            if nviol <= 8:
+                chk.violation({"kind": "eval", "expr": key[0], "doc": d, "impl": got.decode("utf-8", "replace"), "expect": want.decode("utf-8", "replace")},
+                              True, "del() reports an error on a container built by the expression, but removes the selection from the same value decoded afresh: " + key[0])
+            continue
         if not got.startswith(b"OK") or not want.startswith(b"OK"):
             chk.count(key, nontrivial=False)
             continue
